@@ -14,6 +14,7 @@ import time
 
 HERE = os.path.dirname(os.path.abspath(__file__))
 VERIF = os.path.dirname(HERE)
+EVDIR = os.environ.get('VERIF_EVIDENCE_DIR') or os.path.join(VERIF, 'evidence')   # seed runs write elsewhere
 sys.path.insert(0, os.path.join(HERE, 'mirsmt'))
 sys.path.insert(0, HERE)
 
@@ -44,7 +45,7 @@ def main():
     cfg = {'tier': tier, 'seed': seed, 'cvc5': tier == 'thorough',
            'query_timeout_ms': 60000 if tier == 'quick' else 600000}
     mod = importlib.import_module('props.' + pid)
-    rdir = os.path.join(VERIF, 'evidence', 'replays')
+    rdir = os.path.join(EVDIR, 'replays')
     if os.path.isdir(rdir):
         for f in os.listdir(rdir):
             if f.startswith(pid + '-'):
@@ -68,8 +69,19 @@ def main():
     from framework import run_obligation
     ctx = Context(mir, srcdir)
     obs = mod.obligations(ctx, cfg)
+    expected = {}
+    ecp = os.path.join(VERIF, 'engines', 'mirsmt', 'expected_covers.json')
+    if os.path.exists(ecp):
+        expected = json.load(open(ecp)).get(tier, {})
     for ob in obs:
         r = run_obligation(ctx, ob, cfg)
+        # vacuity guard across versions of the machinery: every witness that was reachable when the
+        # obligation was registered must still be reachable (unless the obligation already reports a violation)
+        missing = [c for c in expected.get(ob.id, []) if r.covers.get(c) != 'sat']
+        if missing and not r.violations:
+            for c in missing:
+                r.inconclusive.append('vacuity: witness %r was reachable when this obligation was registered and is not any more' % c)
+            r.verdict = 'inconclusive'
         results.append(r)
         print('  [%s] %-8s %-12s paths=%d queries=%d %.2fs  %s' % (
             'mirsmt', r.id, r.verdict, r.paths, r.queries, r.wall_s, r.desc[:70]))
@@ -176,8 +188,8 @@ def write_evidence(pid, ev, t0, results, kani_results, ctx, notes, cfg, mod, inf
     ev['coverage'] = cov
     ev['assumptions'] = getattr(mod, 'ASSUMPTIONS', []) + COMMON_ASSUMPTIONS
     ev['wall_s'] = round(time.time() - t0, 2)
-    os.makedirs(os.path.join(VERIF, 'evidence'), exist_ok=True)
-    with open(os.path.join(VERIF, 'evidence', pid + '.json'), 'w') as f:
+    os.makedirs(EVDIR, exist_ok=True)
+    with open(os.path.join(EVDIR, pid + '.json'), 'w') as f:
         json.dump(ev, f, indent=1, default=str)
 
 
